@@ -31,7 +31,7 @@ pub static PROP: PropDef = PropDef {
     run_tape,
     exhaustive: Some(boundary_family),
     run_direct: None,
-    min_classes: &[("nontrivial", 300), ("trailers", 500), ("duplicate_names", 500), ("empty_piece", 300), ("split_halves", 500), ("connect_form", 100), ("write_pending", 500), ("style_tiny", 300), ("style_random", 300), ("style_eager", 300)],
+    min_classes: &[("nontrivial", 300), ("trailers", 500), ("duplicate_names", 500), ("empty_piece", 300), ("split_halves", 500), ("split_between_body_and_trailers", 500), ("connect_form", 100), ("write_pending", 500), ("style_tiny", 300), ("style_random", 300), ("style_eager", 300)],
     extra: None,
 };
 
@@ -54,7 +54,8 @@ pub struct Exchange {
     pub req: ReqSpec,
     pub resp: RespSpec,
     pub client_split: bool,
-    /// 0 = read everything then respond, 1 = respond then read, 2 = split halves on two tasks
+    /// 0 = read everything then respond, 1 = respond then read, 2 = split halves on two tasks,
+    /// 3 = body on the whole stream, then split: trailers on the receive half, response on the send half
     pub server_shape: u8,
     /// C14 only: the client drops its stream after this many send_data calls (no finish)
     pub client_abort: Option<usize>,
@@ -313,7 +314,7 @@ pub fn gen_scenario(t: &mut Tape) -> Scenario {
             let mut req = gen_request(t, body_max);
             let pos = t.pick(req.msg.fields.len() + 1);
             req.msg.fields.insert(pos, (MARK.to_string(), k.to_string().into_bytes()));
-            Exchange { req, resp: gen_response(t, body_max), client_split: t.chance(1, 3), server_shape: t.pick(3) as u8, client_abort: None, server_abort: None }
+            Exchange { req, resp: gen_response(t, body_max), client_split: t.chance(1, 3), server_shape: t.pick(4) as u8, client_abort: None, server_abort: None }
         })
         .collect();
     Scenario {
@@ -432,6 +433,24 @@ async fn server_handler(resolver: Resolver, exchanges: Vec<Exchange>, obs: Vec<S
             }
             server_recv_rest(&mut stream, &o).await;
         }
+        3 => {
+            // the body on the whole stream, then split: the trailers are asked for on the receive half
+            if !server_recv_body(&mut stream, &o).await {
+                return;
+            }
+            let (mut tx, mut rx) = stream.split();
+            if !server_half_recv_trailers(&mut rx, &o).await {
+                return;
+            }
+            let resp = build_response(&ex.resp);
+            if let Err(e) = tx.send_response(resp).await {
+                o.borrow_mut().send.error = Some(("send_response".into(), err_info(&e)));
+                return;
+            }
+            o.borrow_mut().send.calls_ok.push("send_response".into());
+            server_half_send_rest(&mut tx, &ex.resp.msg, &o).await;
+            drop(rx);
+        }
         _ => {
             let (mut tx, mut rx) = stream.split();
             let o2 = o.clone();
@@ -547,7 +566,17 @@ async fn client_exchange(mut sr: SendReq, ex: Exchange, o: Shared<ExchangeObs>, 
                 return;
             }
         }
-        client_recv_rest(&mut stream, &o).await;
+        if ex.server_shape == 3 {
+            // (the same exchanges also split late on the client) body on the whole stream, trailers on the receive half
+            if !client_recv_body(&mut stream, &o).await {
+                return;
+            }
+            let (tx, mut rx) = stream.split();
+            client_half_recv_trailers(&mut rx, &o).await;
+            drop(tx);
+        } else {
+            client_recv_rest(&mut stream, &o).await;
+        }
     }
 }
 
@@ -900,6 +929,9 @@ pub fn run_scenario(sc: &Scenario, t: &mut Tape, ctx: &mut Ctx) -> Verdict {
     }
     if sc.exchanges.iter().any(|e| e.req.msg.pieces.iter().chain(e.resp.msg.pieces.iter()).any(|p| p.is_empty())) {
         ctx.class("empty_piece");
+    }
+    if sc.exchanges.iter().any(|e| e.server_shape == 3) {
+        ctx.class("split_between_body_and_trailers");
     }
     if sc.exchanges.iter().any(|e| e.client_split || e.server_shape == 2) {
         ctx.class("split_halves");
